@@ -151,6 +151,10 @@ STATEFUL = [
     "again[^n] only\n\n[^n]: different\n", "*[HTML]: Hyper Text\n\nHTML is HTML\n", "HTML and W3C\n\n*[W3C]: Consortium\n",
     "Title\n=====\n\nSub\n---\n\n# atx\n", "![img](a.png) ![b](c.gif 't')\n", "```{toc}\n```\n\n# H1\n\nH2\n--\n", ".. toc::\n\n# A\n\nB\n=\n",
     "> - [ref]\n>\n> [ref]: /in-quote\n", "| a |\n|---|\n| [ref] |\n", "term\n: def [ref]\n", "- [ ] task\n- [x] done\n", "$$\nx\n$$\n\n$a$\n",
+    # headings that use a label which only some documents define, with a table of contents (what an entry shows depends on the
+    # definitions of its own document)
+    "[ref]: /url\n\n# About [ref]\n\n```{toc}\n```\n", "# [ref] Road map\n\n```{toc}\n```\n\n## [other][] too\n", "[ref]: /u2\n[other]: /o2\n\n# T [ref]\n\n.. toc::\n",
+    "# [ref] plans\n\n.. toc::\n\n## and [x][ref]\n", "# [ref] alone\n\n## [other] sub\n",
     ".. note:: T\n\n   .. tip:: U\n\n      deep\n", ":::{note} A\n::::{tip} B\ninner\n::::\n:::\n",
     ".. note:: 1\n\n   .. note:: 2\n\n      .. note:: 3\n\n         .. note:: 4\n\n            .. note:: 5\n\n               .. note:: 6\n\n                  .. note:: 7\n\n                     x\n",
     "::::::::{note} 1\n:::::::{note} 2\n::::::{note} 3\n:::::{note} 4\n::::{note} 5\n:::{note} 6\nx\n:::\n::::\n:::::\n::::::\n:::::::\n::::::::\n",
